@@ -349,6 +349,14 @@ def do_actions(acts, where):
             if _flaky_counts[where] == act[1]:
                 emit('raise', where=where, exc=act[2] if len(act) > 2 else 'AssertionError', flaky=True)
                 raise make_exc(act[2] if len(act) > 2 else 'AssertionError', 'flaky: fails in execution %d only' % act[1])
+        elif kind == 'write_file':
+            # ['write_file', path relative to the world's src directory, content]
+            src = os.path.join(os.path.dirname(os.environ['ZTV_SPEC']), 'src')
+            p = os.path.join(src, act[1])
+            os.makedirs(os.path.dirname(p), exist_ok=True)
+            with open(p, 'w') as f:
+                f.write(act[2])
+            emit('wrote', path=act[1], where=where)
         elif kind == 'perturb_random':
             # a test module (or something it imports) that uses the process-wide random generator at import time,
             # differently in every process
